@@ -269,7 +269,10 @@ class Interp(object):
                 raise first[0]
             self.clock = tmax
             results = self.template(st.get("ResultSelector"), results)
-            return self.finish(st, data, results)
+            out = self.finish(st, data, results)
+            if "Next" in st:
+                self.check_size(out)      # a refused transition is a failure of this state (see st_Task)
+            return out
         out, nxt = self.with_handlers(name, st, data, body, None)
         return out, (nxt or st.get("Next")), None
 
@@ -319,7 +322,10 @@ class Interp(object):
                 raise first[0]
             self.clock = max(slots) if items else t0
             results = self.template(st.get("ResultSelector"), results)
-            return self.finish(st, data, results)
+            out = self.finish(st, data, results)
+            if "Next" in st:
+                self.check_size(out)      # a refused transition is a failure of this state (see st_Task)
+            return out
         out, nxt = self.with_handlers(name, st, data, body, None)
         return out, (nxt or st.get("Next")), None
 
